@@ -155,8 +155,7 @@ class Reader:
             if self.nc * self.ns * self.dtype.itemsize != self.nbytes:
                 ftsec = (
                     self.file_bin.stat().st_size
-                    / self.dtype.itemsize
-                    / self.nc
+                    // (self.dtype.itemsize * self.nc)
                     / self.fs
                 )
                 if self.meta is not None:
